@@ -6,7 +6,7 @@
    ops) and by the table Gen/C13Consts.v printed from the compiled package. *)
 From Coq Require Import Floats.SpecFloat.
 From HV Require Import Base.Prelude Patch.Msgpack Patch.Path Patch.Float Patch.Ops Patch.Cond
-  Patch.MsgpackProofs Patch.OpsProofs Gen.C13Consts.
+  Patch.MsgpackProofs Patch.OpsProofs Patch.FrameProofs Gen.C13Consts.
 Local Open Scope N_scope.
 
 (* All 256 lead bytes: the model's classifiers (map/array/string/integer/float code, numeric
@@ -44,6 +44,15 @@ Theorem C13_success_wellformed_refuted_without_validation :
     apply_with_cond cfg_orig body ops None = Ok out /\ valid_value body = true /\ valid_value out = false.
 Proof. exact success_wellformed_refuted_without_validation. Qed.
 Print Assumptions C13_success_wellformed_refuted_without_validation.
+
+(* Untouched values keep their exact bytes and relative order: for each of the eight ops (either
+   configuration), the sequence of leaf byte strings of the result is that of the input with only
+   the segment belonging to the addressed target (empty when the target does not exist) replaced. *)
+Theorem C13_untouched_bytes_preserved : forall c s o segs s',
+  apply_op c s o segs = Ok s' ->
+  exists l1 new l2, leaves s = l1 ++ target_leaves segs s ++ l2 /\ leaves s' = l1 ++ new ++ l2.
+Proof. exact untouched_bytes_preserved. Qed.
+Print Assumptions C13_untouched_bytes_preserved.
 
 (* A failing patch leaves the stored body unchanged (PatchFields stores only on success). *)
 Theorem C13_atomic_on_failure : forall c stored ops cd,
